@@ -180,6 +180,12 @@ pub fn gen_pcm(kind: &str, rng: &mut Rng, channels: usize, bps: u32, frames: usi
                     rng.range(lo, hi) >> sh
                 }
                 // near silence with a loud burst in the last quarter of every 16 samples
+                // "clipsine:<gain%>": a sine of gain x full scale, clipped at the rails (the signal runs smoothly into the rail and stays there)
+                k if k.starts_with("clipsine:") => {
+                    let gain: f64 = k[9..].parse::<f64>().unwrap_or(125.0) / 100.0;
+                    let period = 37.0 + 23.0 * c as f64 + (cval[c].rem_euclid(97)) as f64;
+                    ((i as f64 / period * std::f64::consts::TAU).sin() * gain * hi as f64).round().clamp(lo as f64, hi as f64) as i64
+                }
                 "burst" => if i % 16 >= 12 { rng.range(lo / 2, hi / 2) } else { rng.range(-1.max(lo), 1.min(hi)) },
                 "small" => rng.range(-3.max(lo), 3.min(hi)),
                 "sine" => {
